@@ -26,7 +26,7 @@
      array) from the upper bound of a SIZE RANGE changes no decoded value and is unbounded
      over the family SIZE(lo..h), h >= 64K, on every input, the empty one included. *)
 From Coq Require Import ZArith List Bool.
-From A1 Require Import Base.Bytes Rt.Types Rt.Der Rt.Oer Rt.Uper Rt.Depth Rt.DepthProofs Rt.HeapBound Rt.HeapBoundProofs Rt.HeapOer Rt.HeapOerProofs.
+From A1 Require Import Base.Bytes Rt.Types Rt.Der Rt.Oer Rt.Uper Rt.Depth Rt.DepthProofs Rt.HeapBound Rt.HeapBoundProofs Rt.HeapOer Rt.HeapOerProofs Rt.HeapOerFuel.
 Import ListNotations.
 Local Open Scope Z_scope.
 
@@ -240,3 +240,10 @@ Theorem C15_oer_bomb_per_element : forall K : nat,
   m_peak (r_m (oll_run PerElement null_rows (bomb K))) <= 6180 * zlen (bomb K) + 6252.
 Proof. exact bomb_per_element. Qed.
 Print Assumptions C15_oer_bomb_per_element.
+
+(* the fuel the element loops get from [oll_run] (input length + 202) is enough under the per-element guard:
+   the model's outcome is always one of the C's (RC_OK, RC_WMORE, RC_FAIL) *)
+Theorem C15_oer_nested_fuel_suffices : forall (t : lty) (bs : list Z), wf t ->
+  r_rc (oll_run PerElement t bs) <> RFuel.
+Proof. exact oll_run_nofuel. Qed.
+Print Assumptions C15_oer_nested_fuel_suffices.
